@@ -30,6 +30,8 @@ func obsIter(m fp.Try[fp.Iterator[any]]) string {
 	}
 	return Show(m)
 }
+
+func extraDirect(r *Rng, sink *Sink) int { return 0 }
 '''),
     'option': dict(
         imp='github.com/csgura/fp/option', M='fp.Option[%s]', TP='', TPK='',
@@ -48,6 +50,8 @@ func obsIter(m fp.Option[fp.Iterator[any]]) string {
 	}
 	return Show(m)
 }
+
+func extraDirect(r *Rng, sink *Sink) int { return 0 }
 '''),
     'either': dict(
         imp='github.com/csgura/fp/either', M='fp.Either[any, %s]', TP='[any]', TPK='[any]',
@@ -66,6 +70,8 @@ func obsIter(m fp.Either[any, fp.Iterator[any]]) string {
 	}
 	return Show(m)
 }
+
+func extraDirect(r *Rng, sink *Sink) int { return 0 }
 '''),
     'statet': dict(
         imp='github.com/csgura/fp/statet', M='fp.StateT[int, %s]', TP='[int]', TPK='',
@@ -82,7 +88,34 @@ func conv[X any](t fp.Try[X]) fp.StateT[int, X] {
 }
 func obs[X any](m fp.StateT[int, X]) string {
 	t, ns := m.Run(s0)
-	return fmt.Sprintf("%s @%d", Show(t), ns)
+	first := fmt.Sprintf("%s @%d", Show(t), ns)
+	// A StateT is a VALUE (C17, C01, C04): running the same program again - from another initial state and once more from the
+	// same one - must neither change what the first run returned nor behave differently.  The extra runs are silent (their
+	// events are not part of the answer line); seed C17-9: TraverseSeq accumulating into one array allocated at construction.
+	saved := Log
+	Log = nil
+	other, same := "", ""
+	func() {
+		defer func() {
+			if p := recover(); p != nil {
+				other, same = "panic", "panic"
+			}
+		}()
+		t2, ns2 := m.Run(s0 + 7)
+		other = fmt.Sprintf("%s @%d", Show(t2), ns2)
+		t3, ns3 := m.Run(s0)
+		same = fmt.Sprintf("%s @%d", Show(t3), ns3)
+		_ = other
+	}()
+	Log = saved
+	if again := fmt.Sprintf("%s @%d", Show(t), ns); again != first {
+		pendingDirect = append(pendingDirect, [3]string{"statet.run-twice:first-result-changed", curOpLine,
+			"the result of the first Run changed after the program was run again: " + first + " -> " + again})
+	} else if same != "panic" && same != first {
+		pendingDirect = append(pendingDirect, [3]string{"statet.run-twice:not-a-value", curOpLine,
+			"running the same program again from the same initial state gave " + same + " instead of " + first})
+	}
+	return first
 }
 func obsIter(m fp.StateT[int, fp.Iterator[any]]) string {
 	t, ns := m.Run(s0)
@@ -90,6 +123,95 @@ func obsIter(m fp.StateT[int, fp.Iterator[any]]) string {
 		return fmt.Sprintf("%s @%d", Show(fp.Success(t.Get().ToSeq())), ns)
 	}
 	return fmt.Sprintf("%s @%d", Show(t), ns)
+}
+
+// ---- state-DEPENDENT element functions (C17: "state flows left to right through … Sequence/Traverse"; C04: a result once
+// obtained shows the same contents for ever).  stDep(v) returns v*1000+s and moves the state to s+1; it fails at failAt.
+func stDep(failAt int) func(int) fp.StateT[int, int] {
+	return func(v int) fp.StateT[int, int] {
+		return func(s int) (fp.Try[int], int) {
+			if v == failAt {
+				return fp.Failure[int](E(7)), s + 100
+			}
+			return fp.Success(v*1000 + s), s + 1
+		}
+	}
+}
+
+// reference: what the fold of stDep over xs from state s returns
+func stRef(xs []int, failAt int, s int) string {
+	out := []int{}
+	for _, v := range xs {
+		if v == failAt {
+			return fmt.Sprintf("Failure(e7) @%d", s+100)
+		}
+		out = append(out, v*1000+s)
+		s++
+	}
+	return fmt.Sprintf("Success(%s) @%d", Show(out), s)
+}
+
+func extraDirect(r *Rng, sink *Sink) int {
+	checks := 0
+	for rep := 0; rep < 12; rep++ {
+		n := r.Intn(6)
+		xs := make([]int, n)
+		for i := range xs {
+			xs[i] = i + 1
+		}
+		failAt := -1
+		if n > 0 && r.Intn(3) == 0 {
+			failAt = 1 + r.Intn(n)
+		}
+		f := stDep(failAt)
+		run := func(p fp.StateT[int, []int], s int) (fp.Try[[]int], int) { return p.Run(s) }
+		asSlice := func(p fp.StateT[int, fp.Seq[int]]) fp.StateT[int, []int] {
+			return P.Map(p, func(q fp.Seq[int]) []int { return q })
+		}
+		steps := make([]fp.StateT[int, int], n)
+		for i, v := range xs {
+			steps[i] = f(v)
+		}
+		progs := []struct {
+			name string
+			p    fp.StateT[int, []int]
+		}{
+			{"TraverseSeq", asSlice(P.TraverseSeq(fp.Seq[int](xs), f))},
+			{"TraverseSlice", P.TraverseSlice(xs, f)},
+			{"TraverseSeqFunc", asSlice(P.TraverseSeqFunc(f)(fp.Seq[int](xs)))},
+			{"TraverseSliceFunc", P.TraverseSliceFunc(f)(xs)},
+			{"FlatMapTraverseSeq", asSlice(P.FlatMapTraverseSeq(P.Pure[int](fp.Seq[int](xs)), f))},
+			{"FlatMapTraverseSlice", P.FlatMapTraverseSlice(P.Pure[int](xs), f)},
+			{"Sequence", P.Sequence(steps)},
+			{"Traverse", P.Map(P.Traverse(iterator.FromSeq(fp.Seq[int](xs)), f), func(it fp.Iterator[int]) []int { return it.ToSeq() })},
+		}
+		for _, pr := range progs {
+			sA, sB := r.Range(0, 40), r.Range(50, 90)
+			input := fmt.Sprintf("(law-st-traverse %s n=%d failAt=%d sA=%d sB=%d)", pr.name, n, failAt, sA, sB)
+			checks++
+			got := Outcome(func() string {
+				tA, nA := run(pr.p, sA)
+				first := fmt.Sprintf("%s @%d", Show(tA), nA)
+				if pr.name == "Traverse" {
+					return first // an Iterator result is consumed by looking at it; one run only
+				}
+				tB, nB := run(pr.p, sB)
+				second := fmt.Sprintf("%s @%d", Show(tB), nB)
+				again := fmt.Sprintf("%s @%d", Show(tA), nA)
+				if again != first {
+					return "first result changed by the second run: " + first + " -> " + again
+				}
+				if want := stRef(xs, failAt, sB); second != want {
+					return "second run: " + second + " want " + want
+				}
+				return first
+			})
+			if want := stRef(xs, failAt, sA) + " | "; got != want {
+				sink.DirectFail("statet.state-dependent-traverse", input, "got: "+got+" want: "+want)
+			}
+		}
+	}
+	return checks
 }
 '''),
 }
@@ -113,6 +235,10 @@ import (
 var _ = strings.Join
 var _ = iterator.FromSeq[any]
 var s0 = 5
+
+// direct failures found while answering the current operation line (flushed by main)
+var pendingDirect [][3]string
+var curOpLine string
 
 type MAny = @MANY@
 type F1T = fp.Func1[any, any]
@@ -558,6 +684,7 @@ func direct(r *Rng, sink *Sink, n int) int {
 			func() string { return obs(P.LiftM(kOf(k))(mOf(ma))) },
 			func() string { return obs(P.FlatMap(mOf(ma), kOf(k))) })
 	}
+	checks += extraDirect(r, sink)
 	return checks
 }
 
@@ -579,6 +706,9 @@ func main() {
 			return
 		}
 		fmt.Println(runCase(op))
+		for _, d := range pendingDirect {
+			fmt.Println("DIRECT FAILURE", d[0], d[2])
+		}
 		return
 	}
 	r := NewRng(*seed)
@@ -589,7 +719,12 @@ func main() {
 			if err != nil {
 				continue
 			}
+			curOpLine = line
 			sink.Case(line, func() string { return runCase(op) })
+			for _, d := range pendingDirect {
+				sink.DirectFail("@PKG@."+d[0], d[1], d[2])
+			}
+			pendingDirect = nil
 		}
 		sink.Close()
 		fmt.Printf("{\\"cases\\": %d}\\n", sink.N)
@@ -598,7 +733,12 @@ func main() {
 	for i := 0; i < *n; i++ {
 		op := genOp(r)
 		hist[op.Head()]++
-		sink.Case(op.String(), func() string { return runCase(op) })
+		curOpLine = op.String()
+		sink.Case(curOpLine, func() string { return runCase(op) })
+		for _, d := range pendingDirect {
+			sink.DirectFail("@PKG@."+d[0], d[1], d[2])
+		}
+		pendingDirect = nil
 	}
 	nd := direct(r, sink, *n/10+10)
 	sink.Close()
